@@ -17,6 +17,7 @@ package main
 import (
 	"fmt"
 	"go/ast"
+	"regexp"
 	"sort"
 	"strings"
 
@@ -69,38 +70,51 @@ func dump(db *mysql_db.MySQLDb) dState {
 	rd := db.Reader()
 	defer rd.Close()
 	var st dState
-	rd.VisitUsers(func(u *mysql_db.User) {
-		attr := "-"
-		if u.Attributes != nil {
-			attr = "+" + *u.Attributes
+	// Accounts in the order the lookup of MySQLDb.GetUser sees them: grouped by user name (names sorted),
+	// inside a group in the order of the secondary index (= insertion order).
+	nameSet := map[string]bool{}
+	total := 0
+	rd.VisitUsers(func(u *mysql_db.User) { nameSet[u.User] = true; total++ })
+	var names []string
+	for n := range nameSet {
+		names = append(names, n)
+	}
+	sort.Strings(names)
+	for _, n := range names {
+		for _, u := range rd.GetUsersByUsername(n) {
+			st.Users = append(st.Users, dumpUser(u))
 		}
-		du := dUser{Name: u.User, Host: u.Host, Plugin: u.Plugin, Auth: u.AuthString, Locked: u.Locked, Super: u.IsSuperUser,
-			Ephemeral: u.IsEphemeral, Extra: []string{u.Identity, u.SslType, u.SslCipher, u.X509Issuer, u.X509Subject, attr}}
-		v := mysql_db.VerifDumpPrivSet(u.PrivilegeSet)
-		du.Global, du.Dyn = v.Global, v.Dynamic
-		for _, d := range v.Dbs {
-			dd := dDb{Key: d.Key, Name: d.Name, Privs: d.Privs}
-			for _, t := range d.Tables {
-				dd.Tables = append(dd.Tables, dTbl{t.Key, t.Name, t.Privs})
-			}
-			for _, r := range d.Routines {
-				dd.Routines = append(dd.Routines, dRtn{r.Key, r.IsProc, r.Name, r.Privs})
-			}
-			du.Dbs = append(du.Dbs, dd)
-		}
-		st.Users = append(st.Users, du)
-	})
-	sort.Slice(st.Users, func(i, j int) bool {
-		if st.Users[i].Host != st.Users[j].Host {
-			return st.Users[i].Host < st.Users[j].Host
-		}
-		return st.Users[i].Name < st.Users[j].Name
-	})
+	}
+	if len(st.Users) != total {
+		panic(fmt.Sprintf("harness: secondary index lists %d accounts, the set holds %d", len(st.Users), total))
+	}
 	rd.VisitRoleEdges(func(e *mysql_db.RoleEdge) {
 		st.Edges = append(st.Edges, dEdge{e.FromHost, e.FromUser, e.ToHost, e.ToUser, e.WithAdminOption})
 	})
 	sort.Slice(st.Edges, func(i, j int) bool { return fmt.Sprint(st.Edges[i]) < fmt.Sprint(st.Edges[j]) })
 	return st
+}
+
+func dumpUser(u *mysql_db.User) dUser {
+	attr := "-"
+	if u.Attributes != nil {
+		attr = "+" + *u.Attributes
+	}
+	du := dUser{Name: u.User, Host: u.Host, Plugin: u.Plugin, Auth: u.AuthString, Locked: u.Locked, Super: u.IsSuperUser,
+		Ephemeral: u.IsEphemeral, Extra: []string{u.Identity, u.SslType, u.SslCipher, u.X509Issuer, u.X509Subject, attr}}
+	v := mysql_db.VerifDumpPrivSet(u.PrivilegeSet)
+	du.Global, du.Dyn = v.Global, v.Dynamic
+	for _, d := range v.Dbs {
+		dd := dDb{Key: d.Key, Name: d.Name, Privs: d.Privs}
+		for _, t := range d.Tables {
+			dd.Tables = append(dd.Tables, dTbl{t.Key, t.Name, t.Privs})
+		}
+		for _, r := range d.Routines {
+			dd.Routines = append(dd.Routines, dRtn{r.Key, r.IsProc, r.Name, r.Privs})
+		}
+		du.Dbs = append(du.Dbs, dd)
+	}
+	return du
 }
 
 func b01(b bool) string {
@@ -175,17 +189,17 @@ func (s dState) render() string {
 			for _, t := range d.Tables {
 				if len(t.Privs) > 0 {
 					has = true
-					ts = append(ts, "T"+hx.HexS(t.Key)+"/"+hx.HexS(t.Name)+"["+privsStr(t.Privs)+"]")
+					ts = append(ts, "T"+hx.HexS(t.Name)+"["+privsStr(t.Privs)+"]")
 				}
 			}
 			for _, r := range d.Routines {
 				if len(r.Privs) > 0 {
 					has = true
-					rs = append(rs, "R"+hx.HexS(r.Key)+"/"+b01(r.IsProc)+"/"+hx.HexS(r.Name)+"["+privsStr(r.Privs)+"]")
+					rs = append(rs, "R"+b01(r.IsProc)+"/"+hx.HexS(r.Name)+"["+privsStr(r.Privs)+"]")
 				}
 			}
 			if has {
-				dbs = append(dbs, "D"+hx.HexS(d.Key)+"/"+hx.HexS(d.Name)+"["+privsStr(d.Privs)+"]("+strings.Join(sorted(ts), " ")+")("+strings.Join(sorted(rs), " ")+")")
+				dbs = append(dbs, "D"+hx.HexS(d.Name)+"["+privsStr(d.Privs)+"]("+strings.Join(sorted(ts), " ")+")("+strings.Join(sorted(rs), " ")+")")
 			}
 		}
 		us = append(us, "U"+hx.HexS(u.Host)+"@"+hx.HexS(u.Name)+":"+hx.HexS(u.Plugin)+":"+hx.HexS(u.Auth)+":"+b01(u.Locked)+":"+
@@ -221,6 +235,50 @@ func (s dState) mixedCase() bool {
 			if has && mixed && !u.Ephemeral {
 				return true
 			}
+		}
+	}
+	return false
+}
+
+// hostMatches is the harness's own copy of the disjunction in MySQLDb.GetUser (roleSearch = false); it is
+// used only to classify a case (statistics and the tag of an oracle failure).
+func hostMatches(host, orig, uHost string) bool {
+	pat := func(h string) bool {
+		if !strings.Contains(uHost, "%") {
+			return false
+		}
+		m, err := regexp.MatchString("^"+strings.ReplaceAll(regexp.QuoteMeta(uHost), "%", ".*")+"$", h)
+		return err == nil && m
+	}
+	return host == uHost || (host == "localhost" && (uHost == "::1" || uHost == "127.0.0.1")) || uHost == "%" || pat(host) || (orig != host && pat(orig))
+}
+
+// ambiguous: some session is not the primary key of an account and matches two or more accounts of its
+// user name (or, when none, two or more anonymous accounts): which one it runs as depends on their order.
+func (s dState) ambiguous(sessions []aclx.Acct) bool {
+	for _, se := range sessions {
+		host := se.Host
+		if host == "127.0.0.1" || host == "::1" {
+			host = "localhost"
+		}
+		exact, named, anon := false, 0, 0
+		for _, u := range s.Users {
+			if u.Ephemeral {
+				continue
+			}
+			if u.Name == se.Name && u.Host == host {
+				exact = true
+			}
+			if hostMatches(host, se.Host, u.Host) {
+				if u.Name == se.Name {
+					named++
+				} else if u.Name == "" {
+					anon++
+				}
+			}
+		}
+		if !exact && (named >= 2 || (named == 0 && anon >= 2)) {
+			return true
 		}
 	}
 	return false
@@ -326,6 +384,7 @@ type gen struct {
 	roles []aclx.Acct
 	mixed bool // allow names in mixed case
 	admin bool // allow WITH ADMIN OPTION
+	cont  []aclx.Stmt // fixed follow-up statements (corpus cases); nil: generated
 }
 
 func (g *gen) exec(s aclx.Stmt) bool {
@@ -454,6 +513,96 @@ func (g *gen) step() {
 	}
 }
 
+// sqlToPlan maps sql.PrivilegeType to the plan.PrivilegeType keyword index (inverse of aclx.PlanToSQLPriv).
+func sqlToPlan(p int) int {
+	for i, q := range aclx.PlanToSQLPriv {
+		if q == p {
+			return i
+		}
+	}
+	return -1
+}
+
+// followUps are statements run by root on both engines after the reload: they address entries the
+// state already holds (REVOKE of a held privilege, GRANT beside it, under the stored name or another
+// spelling of it) and role grants, so that a reloaded entry that can no longer be found shows up as a
+// different decision.
+func (g *gen) followUps(a dState) []aclx.Stmt {
+	var out []aclx.Stmt
+	type held struct {
+		acct    aclx.Acct
+		db, tbl string
+		rtn     bool
+		privs   []int
+	}
+	var hs []held
+	for _, u := range a.Users {
+		if u.Super || u.Ephemeral {
+			continue
+		}
+		acct := aclx.Acct{Name: u.Name, Host: u.Host}
+		for _, d := range u.Dbs {
+			if len(d.Privs) > 0 {
+				hs = append(hs, held{acct, d.Name, "*", false, d.Privs})
+			}
+			for _, t := range d.Tables {
+				if len(t.Privs) > 0 {
+					hs = append(hs, held{acct, d.Name, t.Name, false, t.Privs})
+				}
+			}
+			for _, r := range d.Routines {
+				if len(r.Privs) > 0 && r.IsProc {
+					hs = append(hs, held{acct, d.Name, r.Name, true, r.Privs})
+				}
+			}
+		}
+	}
+	respell := func(n string) string {
+		switch g.r.Intn(4) {
+		case 0:
+			return strings.ToLower(n)
+		case 1:
+			return strings.ToUpper(n)
+		}
+		return n
+	}
+	for i, n := 0, g.r.Intn(4); i < n; i++ {
+		switch x := g.r.Intn(10); {
+		case x < 6 && len(hs) > 0:
+			h := hx.Pick(g.r, hs)
+			s := aclx.Stmt{Kind: "revoke", LvDb: respell(h.db), LvTbl: h.tbl, Users: []aclx.Acct{h.acct}}
+			if h.tbl != "*" {
+				s.LvTbl = respell(h.tbl)
+			}
+			if g.r.Chance(1, 3) {
+				s.Kind = "grant"
+			}
+			if h.rtn {
+				s.ObjTyp = 3
+				s.Privs = []aclx.PPriv{{Type: hx.Pick(g.r, []int{14, 2, 16})}}
+			} else if s.Kind == "revoke" && g.r.Chance(1, 4) {
+				s.Privs = []aclx.PPriv{{Type: 0}}
+			} else if s.Kind == "revoke" {
+				pt := sqlToPlan(hx.Pick(g.r, h.privs))
+				if pt < 0 {
+					panic("harness: held privilege without keyword")
+				}
+				s.Privs = []aclx.PPriv{{Type: pt}}
+			} else {
+				s.Privs = []aclx.PPriv{{Type: hx.Pick(g.r, tblLevel)}}
+			}
+			out = append(out, s)
+		case x < 8 && len(g.roles) > 0:
+			out = append(out, aclx.Stmt{Kind: hx.Pick(g.r, []string{"gr", "rr"}), Roles: []aclx.Acct{hx.Pick(g.r, g.roles)}, Users: []aclx.Acct{g.grantee()}})
+		default:
+			s := aclx.Stmt{Kind: hx.Pick(g.r, []string{"grant", "revoke"}), LvDb: hx.Pick(g.r, dbNames), LvTbl: hx.Pick(g.r, append([]string{"*"}, tblNames...)), Users: []aclx.Acct{g.grantee()}}
+			s.Privs = []aclx.PPriv{{Type: hx.Pick(g.r, tblLevel)}}
+			out = append(out, s)
+		}
+	}
+	return out
+}
+
 // sessions that reach the accounts of the state (plus one stranger)
 func sessionsFor(st dState) []aclx.Acct {
 	var out []aclx.Acct
@@ -517,9 +666,30 @@ func oneCase(out *hx.Out, build func(g *gen), r *hx.Rand, mixed, admin bool) {
 		}
 		return gs
 	}
+	grantsOf := func(env *aclx.Env) []string {
+		var gs []string
+		for _, u := range a.Users {
+			gs = append(gs, showGrants(env, aclx.Acct{Name: u.Name, Host: u.Host}))
+		}
+		return gs
+	}
 	gridA, gridB := gridOf(envA), gridOf(envB)
+	grantsA, grantsB := grantsOf(envA), grantsOf(envB)
 
-	obs := b.render() + "#" + strings.Join(gridB, " ")
+	// follow-up statements on both engines
+	cont := g.cont
+	if cont == nil {
+		cont = g.followUps(a)
+	}
+	var contClassA, contClassB []string
+	for _, s := range cont {
+		contClassA = append(contClassA, envA.Run(envA.Root, "d", s.SQL()).Class())
+		contClassB = append(contClassB, envB.Run(envB.Root, "d", s.SQL()).Class())
+	}
+	gridA2, gridB2 := gridOf(envA), gridOf(envB)
+	grantsA2, grantsB2 := grantsOf(envA), grantsOf(envB)
+
+	obs := b.render() + "#" + strings.Join(gridB, " ") + "#" + strings.Join(gridB2, " ")
 	if p != "" {
 		obs = "crash:" + p
 	} else if loadErr != nil {
@@ -527,7 +697,8 @@ func oneCase(out *hx.Out, build func(g *gen), r *hx.Rand, mixed, admin bool) {
 	}
 	users, edges := a.payload()
 	payload := hx.List("state", users, edges, "(sessions "+strings.Join(mapAccts(sessions), " ")+")",
-		hx.List("grid", hx.ListOf(gridDbs, hx.HexS), hx.ListOf(gridTbls, hx.HexS), hx.ListOf(roles, aclx.Acct.Payload)))
+		hx.List("grid", hx.ListOf(gridDbs, hx.HexS), hx.ListOf(gridTbls, hx.HexS), hx.ListOf(roles, aclx.Acct.Payload)),
+		"(cont "+strings.Join(mapStmts(cont), " ")+")")
 	nGrants := 0
 	for _, u := range a.Users {
 		if !u.Super {
@@ -542,30 +713,73 @@ func oneCase(out *hx.Out, build func(g *gen), r *hx.Rand, mixed, admin bool) {
 	if a.adminEdge() {
 		out.Stat("state:admin-edge")
 	}
+	if a.ambiguous(sessions) {
+		out.Stat("state:session-matches-several-accounts")
+	}
 	out.StatN("accounts", len(a.Users))
+	out.StatN("follow-up statements", len(cont))
 
-	// model-free oracle
+	// model-free oracle: the reloaded engine answers like the one that persisted, before and after the
+	// follow-up statements
 	tag := "-"
 	switch {
+	case a.ambiguous(sessions):
+		tag = "reload_reorders_matching_accounts"
 	case a.mixedCase():
 		tag = "reload_loses_mixed_case_names"
 	case a.adminEdge():
 		tag = "reload_drops_admin_option"
 	}
-	for _, u := range a.Users {
-		acct := aclx.Acct{Name: u.Name, Host: u.Host}
-		ga, gb := showGrants(envA, acct), showGrants(envB, acct)
-		if ga != gb {
-			out.OracleFail(id, tag, fmt.Sprintf("SHOW GRANTS FOR %s differs after reload: before %q, after %q", acct.SQL(), ga, gb))
-			break
+	fail := func(desc string) { out.OracleFail(id, tag, desc) }
+	switch {
+	case p != "" || loadErr != nil:
+		fail("LoadData of the persisted bytes failed: " + obs)
+	case !eqStrs(grantsA, grantsB):
+		i := firstDiff(grantsA, grantsB)
+		fail(fmt.Sprintf("SHOW GRANTS FOR %s@%s differs after reload: before %q, after %q", a.Users[i].Name, a.Users[i].Host, grantsA[i], grantsB[i]))
+	case !eqStrs(gridA, gridB):
+		i := firstDiff(gridA, gridB)
+		fail(fmt.Sprintf("decisions of session %s@%s differ after reload: before %s, after %s", sessions[i].Name, sessions[i].Host, gridA[i], gridB[i]))
+	case !eqStrs(contClassA, contClassB):
+		i := firstDiff(contClassA, contClassB)
+		fail(fmt.Sprintf("follow-up %q: %s on the persisting engine, %s on the reloaded one", cont[i].SQL(), contClassA[i], contClassB[i]))
+	case !eqStrs(gridA2, gridB2):
+		i := firstDiff(gridA2, gridB2)
+		fail(fmt.Sprintf("after the follow-up statements %q the decisions of session %s@%s differ: persisting engine %s, reloaded engine %s", stmtsSQL(cont), sessions[i].Name, sessions[i].Host, gridA2[i], gridB2[i]))
+	case !eqStrs(grantsA2, grantsB2):
+		i := firstDiff(grantsA2, grantsB2)
+		fail(fmt.Sprintf("after the follow-up statements %q SHOW GRANTS FOR %s@%s differs: persisting engine %q, reloaded engine %q", stmtsSQL(cont), a.Users[i].Name, a.Users[i].Host, grantsA2[i], grantsB2[i]))
+	}
+}
+
+func eqStrs(a, b []string) bool { return firstDiff(a, b) < 0 }
+
+func firstDiff(a, b []string) int {
+	if len(a) != len(b) {
+		panic("harness: observation vectors of different length")
+	}
+	for i := range a {
+		if a[i] != b[i] {
+			return i
 		}
 	}
-	for i := range sessions {
-		if gridA[i] != gridB[i] {
-			out.OracleFail(id, tag, fmt.Sprintf("decisions of session %s@%s differ after reload: before %s, after %s", sessions[i].Name, sessions[i].Host, gridA[i], gridB[i]))
-			break
-		}
+	return -1
+}
+
+func mapStmts(ss []aclx.Stmt) []string {
+	out := make([]string, len(ss))
+	for i, s := range ss {
+		out[i] = s.Payload()
 	}
+	return out
+}
+
+func stmtsSQL(ss []aclx.Stmt) string {
+	out := make([]string, len(ss))
+	for i, s := range ss {
+		out[i] = s.SQL()
+	}
+	return strings.Join(out, "; ")
 }
 
 func mapAccts(as []aclx.Acct) []string {
@@ -586,20 +800,48 @@ func run(a hx.RunArgs) error {
 	u1 := aclx.Acct{Name: "u1", Host: "localhost"}
 	r1 := aclx.Acct{Name: "r1", Host: "%"}
 	// corpus
-	oneCase(out, func(g *gen) { // F-C41-a: mixed-case database name
+	u1h := aclx.Acct{Name: "u1", Host: "h%"}
+	u1any := aclx.Acct{Name: "u1", Host: "%"}
+	sel := []aclx.PPriv{{Type: 25}}
+	oneCase(out, func(g *gen) { // F-C41-a: mixed-case database name, REVOKE after the reload
 		g.exec(aclx.Stmt{Kind: "cu", Users: []aclx.Acct{u1}})
-		g.exec(aclx.Stmt{Kind: "grant", LvDb: "D", LvTbl: "*", Privs: []aclx.PPriv{{Type: 25}}, Users: []aclx.Acct{u1}})
+		g.exec(aclx.Stmt{Kind: "grant", LvDb: "D", LvTbl: "*", Privs: sel, Users: []aclx.Acct{u1}})
+		g.cont = []aclx.Stmt{{Kind: "revoke", LvDb: "D", LvTbl: "*", Privs: sel, Users: []aclx.Acct{u1}}}
 	}, hx.NewRand(1), true, false)
-	oneCase(out, func(g *gen) { // F-C41-a: mixed-case table name
+	oneCase(out, func(g *gen) { // F-C41-a: mixed-case table name, REVOKE after the reload
 		g.exec(aclx.Stmt{Kind: "cu", Users: []aclx.Acct{u1}})
-		g.exec(aclx.Stmt{Kind: "grant", LvDb: "d", LvTbl: "T", Privs: []aclx.PPriv{{Type: 25}}, Users: []aclx.Acct{u1}})
+		g.exec(aclx.Stmt{Kind: "grant", LvDb: "d", LvTbl: "T", Privs: sel, Users: []aclx.Acct{u1}})
+		g.cont = []aclx.Stmt{{Kind: "revoke", LvDb: "d", LvTbl: "T", Privs: sel, Users: []aclx.Acct{u1}}}
+	}, hx.NewRand(1), true, false)
+	oneCase(out, func(g *gen) { // F-C41-a: mixed-case routine name
+		g.exec(aclx.Stmt{Kind: "cu", Users: []aclx.Acct{u1}})
+		g.exec(aclx.Stmt{Kind: "grant", LvDb: "d", LvTbl: "P", ObjTyp: 3, Privs: []aclx.PPriv{{Type: 14}}, Users: []aclx.Acct{u1}})
+		g.cont = []aclx.Stmt{{Kind: "revoke", LvDb: "d", LvTbl: "P", ObjTyp: 3, Privs: []aclx.PPriv{{Type: 14}}, Users: []aclx.Acct{u1}}}
+	}, hx.NewRand(1), true, false)
+	oneCase(out, func(g *gen) { // mixed-case name, no follow-up: the reloaded engine answers alike
+		g.exec(aclx.Stmt{Kind: "cu", Users: []aclx.Acct{u1}})
+		g.exec(aclx.Stmt{Kind: "grant", LvDb: "D", LvTbl: "T", Privs: sel, Users: []aclx.Acct{u1}})
+		g.cont = []aclx.Stmt{}
 	}, hx.NewRand(1), true, false)
 	oneCase(out, func(g *gen) { // F-C41-b: ADMIN OPTION
 		g.exec(aclx.Stmt{Kind: "cu", Users: []aclx.Acct{u1}})
 		g.exec(aclx.Stmt{Kind: "cr", Roles: []aclx.Acct{r1}})
 		g.exec(aclx.Stmt{Kind: "gr", Flag: true, Roles: []aclx.Acct{r1}, Users: []aclx.Acct{u1}})
+		g.cont = []aclx.Stmt{}
 	}, hx.NewRand(1), false, true)
-	oneCase(out, func(g *gen) { // plain state, outside both regions
+	oneCase(out, func(g *gen) { // F-C41-c: two accounts match the session; the reload re-inserts them sorted by host
+		g.exec(aclx.Stmt{Kind: "cu", Users: []aclx.Acct{u1h}})
+		g.exec(aclx.Stmt{Kind: "cu", Users: []aclx.Acct{u1any}})
+		g.exec(aclx.Stmt{Kind: "grant", LvDb: "d", LvTbl: "*", Privs: sel, Users: []aclx.Acct{u1h}})
+		g.cont = []aclx.Stmt{}
+	}, hx.NewRand(1), false, false)
+	oneCase(out, func(g *gen) { // same accounts created in host order: the reload keeps the order
+		g.exec(aclx.Stmt{Kind: "cu", Users: []aclx.Acct{u1any}})
+		g.exec(aclx.Stmt{Kind: "cu", Users: []aclx.Acct{u1h}})
+		g.exec(aclx.Stmt{Kind: "grant", LvDb: "d", LvTbl: "*", Privs: sel, Users: []aclx.Acct{u1h}})
+		g.cont = []aclx.Stmt{}
+	}, hx.NewRand(1), false, false)
+	oneCase(out, func(g *gen) { // plain state, outside the regions
 		g.exec(aclx.Stmt{Kind: "none", Text: "CREATE USER 'u1'@'localhost' IDENTIFIED BY 'pw'"})
 		g.exec(aclx.Stmt{Kind: "cr", Roles: []aclx.Acct{r1}})
 		g.exec(aclx.Stmt{Kind: "grant", LvDb: "d", LvTbl: "t", Privs: []aclx.PPriv{{Type: 25}, {Type: 18}}, Users: []aclx.Acct{u1}, WGO: true})
@@ -607,6 +849,8 @@ func run(a hx.RunArgs) error {
 		g.exec(aclx.Stmt{Kind: "grant", LvDb: "*", LvTbl: "*", Privs: []aclx.PPriv{{Type: 20}, {Type: 33, Dyn: "clone_admin"}}, Users: []aclx.Acct{u1}})
 		g.exec(aclx.Stmt{Kind: "grant", LvDb: "d", LvTbl: "p", ObjTyp: 3, Privs: []aclx.PPriv{{Type: 14}}, Users: []aclx.Acct{u1}})
 		g.exec(aclx.Stmt{Kind: "gr", Roles: []aclx.Acct{r1}, Users: []aclx.Acct{u1}})
+		g.cont = []aclx.Stmt{{Kind: "revoke", LvDb: "d", LvTbl: "t", Privs: []aclx.PPriv{{Type: 18}}, Users: []aclx.Acct{u1}},
+			{Kind: "revoke", LvDb: "E", LvTbl: "*", Privs: sel, Users: []aclx.Acct{r1}}}
 	}, hx.NewRand(1), false, false)
 
 	n, maxSteps := 250, 45
